@@ -139,7 +139,9 @@ func runC12(c *eng.Ctx) {
 			continue
 		}
 		info := f.Pkg.TypesInfo
-		calls := callsIn(info, f.Decl.Body, func(o types.Object, _ *ast.CallExpr) bool { return eng.IsPkgFunc(o, "os", "WriteFile") || eng.IsPkgFunc(o, "os", "Create") })
+		calls := callsIn(info, f.Decl.Body, func(o types.Object, _ *ast.CallExpr) bool {
+			return eng.IsPkgFunc(o, "os", "WriteFile") || eng.IsPkgFunc(o, "os", "Create")
+		})
 		if len(calls) != 1 {
 			r2.Unknown(f.Key+" write", f.Decl.Pos(), fmt.Sprintf("expected one os.WriteFile, found %d", len(calls)))
 			continue
